@@ -327,6 +327,27 @@ def dt_case(kind):
     return f"dt|{kind}|times-axis", ""
 
 
+def shared_system_case(order):
+    """one System object used for correlations at different caller-supplied time steps, in the given order"""
+    E = env()
+    full = list(range(N + 1))
+    sysm = oq.System(H0)
+    for i, dt in enumerate(order):
+        with warnings.catch_warnings():
+            warnings.simplefilter("ignore")
+            times, corr = oq.compute_correlations(sysm, E["pt_nodt"], OP_A, OP_B, full, full, initial_state=RHO0,
+                                                  start_time=0.0, dt=dt, progress_type="silent")
+        tab = exact_table([OP_A, OP_B], ["left", "left"], dt=dt)
+        m = ~np.isnan(tab)
+        if np.abs(np.asarray(times[0]) - dt * np.arange(N + 1)).max() > 1e-12:
+            return f"dt|shared-System|times-axis", f"order {order}"
+        if (np.isnan(corr) != np.isnan(tab)).any() or np.abs(corr[m] - tab[m]).max() > TOL:
+            return (f"dt|shared-System|{'first-time-step' if i == 0 else 'after-other-time-steps'}|wrong-value",
+                    f"one System object, time steps {list(order[:i + 1])}: correlations at dt={dt} deviate by "
+                    f"{np.abs(corr[m] - tab[m]).max():.2e}")
+    return None, "ok"
+
+
 def pttempo_case(args):
     """PT-TEMPO process tensor: reference table from per-(t_a) compute_dynamics runs with an explicit Control."""
     start, order = args
@@ -457,6 +478,11 @@ def run(tier, seed):
         dres[k] = cls or what
         if cls:
             rep.add(Violation(cls, what, {"part": "dt", "kind": k}))
+    for o_ in itertools.permutations((DT, 0.5 * DT, 0.1)):
+        cls, what = shared_system_case(o_)
+        dres["shared-System " + str(list(o_))] = cls or what
+        if cls:
+            rep.add(Violation(cls, what, {"part": "dt-shared", "order": list(o_)}))
     ntd = 0
     for order in ("ordered", "anti"):
         r = td_case(order)
@@ -515,6 +541,9 @@ def replay(rp):
     if part == "relation":
         sig = relation_case(rp["start"])
         return {"obs": sig, "violation": sig}
+    if part == "dt-shared":
+        cls, what = shared_system_case(tuple(rp["order"]))
+        return {"obs": [cls, what], "violation": cls}
     if part == "dt":
         cls, what = dt_case(rp["kind"])
         return {"obs": [cls, what], "violation": cls}
